@@ -1,5 +1,5 @@
 """C08 — heap component; see harness/heap.py"""
-from .. import heap, refgraph, common
+from .. import heap, refgraph, hybrid, common
 
 PROP = "C08"
 PREFIX = ('C08:',)
@@ -22,11 +22,18 @@ def _rg(tier, seed):
     return _cache[("rg", tier, seed)]
 
 
+def _hyb(tier, seed):
+    if ("hyb", tier, seed) not in _cache:
+        _cache[("hyb", tier, seed)] = hybrid.run_all(tier, seed)
+    return _cache[("hyb", tier, seed)]
+
+
 def run(tier, seed):
     r = _run(tier, seed)
     g = _rg(tier, seed)
+    hy = _hyb(tier, seed)      # reference fields of hybrid objects (hybrid_class.py is one of the anchors): oracle keys C08:hybrid-*
     return {
-        "failures": _mine(r["failures"]) + _mine(g["failures"]),
+        "failures": _mine(r["failures"]) + _mine(g["failures"]) + _mine(hy["failures"]),
         "mismatches": r["mismatches"] + g["mismatches"],
         "evaluations": r["lines"] + g["lines"],
         "distinct_nontrivial": r["distinct"] + g["distinct"],
@@ -57,6 +64,7 @@ def search(mismatches, seed):
     for s in range(2):
         out.extend(_mine(heap.run_all("quick", seed + 8000 + s, n=500)["failures"]))
         out.extend(_mine(refgraph.run_all("quick", seed + 8000 + s, n=600)["failures"]))
+        out.extend(_mine(hybrid.run_all("quick", seed + 8000 + s)["failures"]))
         if out:
             break
     return out
@@ -64,6 +72,17 @@ def search(mismatches, seed):
 
 def replay(rep):
     f = rep.get("failure") or (rep.get("mismatches") or [{}])[0]
+    if (f.get("replay") or {}).get("component") == "hyb":
+        import collections
+        fl = []
+        hybrid.replay_ops(f["replay"]["ops"], fl, collections.Counter())
+        for x in fl[:5]:
+            print("oracle:", x.key, x.what[:300])
+        if _mine(fl):
+            print(f"VIOLATION property={PROP} replay=(replayed)")
+            return 1
+        print("replay: property holds on this input")
+        return 0
     if (f.get("replay") or {}).get("component") == "rg":
         fails, mism = refgraph.replay(f["replay"])
         for x in fails[:5]:
